@@ -19,6 +19,9 @@ computed with `fractions.Fraction` (exact).  Cases on which binary64 arithmetic 
 only when the draw is farther than 2**-40 from every exact decision boundary (count reported as skipped).
 Direct oracle: `draw < p` / cumulative-interval membership re-evaluated in exact rational arithmetic on the
 implementation's outputs, container type and row content, monotonicity / rescaling / residual / locality re-calls.
+`choices` is passed in every container the API accepts - list, tuple, ndarray, 1-d object ndarray (mixed types, tuples,
+None), pd.Series with default / permuted integer / string labels, pd.Index, range - and the returned OPTION itself must
+be choices[k] positionally (missing values one value, numbers numerically).
 Non-finite corner (model layer filter_px / filter_rate_x / choice_x in Decide.v): nan / +inf / -inf / negative
 probabilities, rates and weights occur per row in every stream; expected = what the current code does (nan or -inf never
 selects, +inf always, +inf rate = the 250 cap, rate <= 0 never selects, a weight row with nan -> option 0, an infinite
